@@ -188,9 +188,10 @@ def gen_cases(tier, seed):
             for i, s in enumerate(_seeds(seed, (1, k), ns)):
                 cases.append(_mock_run(cid, LOWEST, s, explore=(i == 0)))
                 cases.append(_mock_run(cid, LOWEST, s, invalid=True, cell=f"{cid}_INVALID@{LOWEST:g}"))
-        # other noise levels: 6 (circuit, noise) cells
+        # other noise levels: 6 (circuit, noise) cells; the first is always one of the two circuits with a negative
+        # differential resistance (CIRCUIT_8 / CIRCUIT_9), where the choice of representation decides the quality of the fit
         for j in range(6):
-            k = (5 * seed + 3 * j + 7) % N_VALID
+            k = (5 * seed + 3 * j + 7) % N_VALID if j else 7 + seed % 2
             noise = NOISE_LEVELS[1 + (seed + j) % 3]
             for i, s in enumerate(_seeds(seed, (2, k, j), ns)):
                 cases.append(_mock_run(VALID[k], noise, s, explore=(i == 0)))
@@ -205,7 +206,7 @@ def gen_cases(tier, seed):
                               "cell": f"ladder-{fam}@{noise:g}", "explore": i == 0, **lad})
         nm_seeds = 8
     else:
-        ns = 12
+        ns, ns2 = 10, MIN_SEEDS
         for k, cid in enumerate(VALID):
             for li, noise in enumerate(NOISE_LEVELS):
                 for i, s in enumerate(_seeds(seed, (1, k) if noise == LOWEST else (2, k, li), ns)):
@@ -214,14 +215,14 @@ def gen_cases(tier, seed):
                         cases.append(_mock_run(cid, LOWEST, s, invalid=True, cell=f"{cid}_INVALID@{LOWEST:g}"))
             # noise level anywhere in the quantifier's range
             rng = np.random.default_rng([seed, 10, 4, k])
-            for i, s in enumerate(_seeds(seed, (4, k), ns)):
+            for i, s in enumerate(_seeds(seed, (4, k), ns2)):
                 noise = float(10 ** rng.uniform(math.log10(0.02), 0.0))
                 cases.append(_mock_run(cid, round(noise, 5), s, cell=f"{cid}@loguniform"))
         for fi, fam in enumerate(["RC", "RQ", "mixed"]):
             for li, noise in enumerate(NOISE_LEVELS):
                 for wide in (False, True):
                     rng = np.random.default_rng([seed, 10, 5, fi, li, int(wide)])
-                    for i, s in enumerate(_seeds(seed, (5, fi, li, int(wide)), ns)):
+                    for i, s in enumerate(_seeds(seed, (5, fi, li, int(wide)), ns2)):
                         lad = gen_ladder(rng, fam, wide=wide)
                         cases.append({"kind": "run", "family": "ladder", "base": f"ladder-{fam}", "invalid": False, "noise": noise,
                                       "seed": s, "cell": f"ladder-{fam}{'-wide' if wide else ''}@{noise:g}", "explore": i % 6 == 0, **lad})
@@ -453,8 +454,11 @@ def run_case(case):
             stats["explored_public_route"] = 1
             stats["explored_agrees_with_single"] = rec.get("explore_agrees", 0)
         if not case["invalid"]:
-            maxobs["per_run_ratio_max"] = rec["ratio"]
-            maxobs["per_run_inv_ratio_max"] = 1.0 / rec["ratio"] if rec["ratio"] > 0 else float("inf")
+            tag = ":single-R-or-C-shortcut-limits" if rec.get("lower") == 2 and rec.get("upper") == rec["n"] else ""
+            maxobs["per_run_ratio_max" + tag] = rec["ratio"]
+            maxobs["per_run_inv_ratio_max" + tag] = 1.0 / rec["ratio"] if rec["ratio"] > 0 else float("inf")
+            if tag:
+                stats["runs_with_single-R-or-C-shortcut-limits"] = 1
             if "truth_err" in rec:
                 maxobs["fit_error_vs_noise_free_in_noise_units"] = rec["truth_err"]
     planned = {"cell": case["cell"]}
